@@ -16,7 +16,8 @@ def alphabet():
     for b in [(), (3,)]:
         ops.append(('setbases', 2, b))
     for k in range(NREG):
-        ops.append(('register', k, (2,), 0, '', 'v%d' % k))        # required R1
+        # the front registry's value is false in a boolean context (an empty container is a legitimate utility / adapter)
+        ops.append(('register', k, (2,), 0, '', ('FALSY', 'v0') if k == 0 else 'v%d' % k))        # required R1
     for k in range(1, NREG):
         ops.append(('register', k, (1,), 1, 'n', 'w%d' % k))       # required R0, provided P1, named
         ops.append(('subscribe', k, (2,), 0, '', 's%d' % k))
